@@ -58,8 +58,12 @@ func runGetClosest(t *testing.T, s *lkSc) lookupObs {
 			obs.CplBefore = tr[cpl]
 		}
 		ctx, cancel := context.WithCancel(context.Background())
+		if s.EvStallMs > 0 {
+			defer func(n int) { LookupEventBufferSize = n }(LookupEventBufferSize)
+			LookupEventBufferSize = 0
+		}
 		ectx, ch := RegisterForLookupEvents(ctx)
-		get, done := collectEvents(env.sim, ch)
+		get, done := collectEvents(env.sim, ch, env.sim.Now()+time.Second+time.Duration(s.EvStallAtMs)*time.Millisecond, time.Duration(s.EvStallMs)*time.Millisecond)
 		time.Sleep(time.Second) // the lookup starts at a virtual instant later than construction
 		// events are registered on the outer context so that they keep flowing when the caller cancels the lookup itself
 		lctx, lcancel := context.WithCancel(ectx)
@@ -243,7 +247,7 @@ func judgeLookup(s *lkSc, obs lookupObs, res *verifsim.Result) *lookupFacts {
 		}
 	}
 	requested := map[peer.ID]time.Duration{}
-	for _, te := range obs.Events {
+	for ti, te := range obs.Events {
 		ev := te.Ev
 		if ev.Key == nil || ev.Key.Key != s.keyString() {
 			res.Fail("events/key", "C01/events/wrong-key", "event for another key")
@@ -252,6 +256,12 @@ func judgeLookup(s *lkSc, obs lookupObs, res *verifsim.Result) *lookupFacts {
 			f.nTerminate++
 			f.terminateAt = te.At
 			f.reason = ev.Terminate.Reason
+			// With a stalled consumer the Terminate event may be handed over long after the loop decided to stop. The loop decides
+			// right after publishing the event of the update it has just applied, without reading anything in between: the
+			// decision instant is the hand-over of the event before this one.
+			if s.EvStallMs > 0 && ti > 0 && obs.Events[ti-1].At < te.At {
+				f.terminateAt = obs.Events[ti-1].At
+			}
 		}
 		if ev.Request != nil {
 			for _, p := range kadIDs(ev.Request.Waiting) {
@@ -271,7 +281,8 @@ func judgeLookup(s *lkSc, obs lookupObs, res *verifsim.Result) *lookupFacts {
 		if ev.Response != nil {
 			for _, p := range kadIDs(ev.Response.Queried) {
 				ex := firstReq[p]
-				if ex == nil || ex.Outcome != "ok" || ex.End != te.At {
+				// (with a stalled event consumer the loop takes an answer up when it moves again: not before it was delivered)
+				if ex == nil || ex.Outcome != "ok" || (s.EvStallMs == 0 && ex.End != te.At) || ex.End > te.At {
 					res.Fail("events/response-real", "C01/events/response-not-received", "Response event for %s at %v without a delivered answer then (%+v)", shortID(p), te.At, ex)
 					continue
 				}
@@ -544,6 +555,44 @@ func genAdversarial(t *rapid.T) lkSc {
 	}
 	s.SeedConn = rapid.IntRange(0, 3).Draw(t, "seedConn") == 0
 	return s
+}
+
+// A consumer of the lookup events that stops reading for a while: the lookup loop publishes synchronously and stands still,
+// answers and failures of the requests in flight queue up behind it, and when it moves again it must take all of them into
+// account before it decides that the search is over.
+func TestVerif_C01_StalledEvents(t *testing.T) {
+	verifsim.RunCheck(t, verifsim.Check[lkSc]{
+		Property: "C01", Part: "stalled-events",
+		Rule: "rapid: the adversarial generator (1-40 peers, faults, liars, latencies 1-3000 ms) with alpha 2-5 and a consumer of the lookup events that stops reading 0-2500 ms after the lookup started, for 50-3000 ms, on an " +
+			"unbuffered event channel (LookupEventBufferSize 0: an event is read when it is published, and the synchronously publishing lookup loop stands still during the stall); the same result / event / log clauses as the " +
+			"adversarial part; non-trivial = a request failed or was answered while the consumer was stalled",
+		Gen: func(t *rapid.T) lkSc {
+			s := genAdversarial(t)
+			s.CancelMs = 0
+			s.Alpha = rapid.IntRange(2, 5).Draw(t, "stallAlpha")
+			s.EvStallAtMs = rapid.SampledFrom([]int{0, 1, 5, 50, 300, 1000, 2500}).Draw(t, "stallAt")
+			s.EvStallMs = rapid.SampledFrom([]int{50, 300, 1000, 3000}).Draw(t, "stallMs")
+			return s
+		},
+		Run: func(t *testing.T, s lkSc) (res verifsim.Result) {
+			obs := runGetClosest(t, &s)
+			f := judgeLookup(&s, obs, &res)
+			if f == nil {
+				return
+			}
+			judgeContact(&s, obs, f, &res)
+			from := obs.Started + time.Duration(s.EvStallAtMs)*time.Millisecond
+			for _, e := range obs.Log {
+				if e.Kind == "request" && e.End >= from && e.End <= from+time.Duration(s.EvStallMs)*time.Millisecond+3*time.Second && e.End < obs.Returned {
+					res.NonTrivial = true
+				}
+			}
+			if len(f.failed) > 0 {
+				res.Class("failed-peer")
+			}
+			return
+		},
+	})
 }
 
 func TestVerif_C01_Adversarial(t *testing.T) {
